@@ -4,6 +4,8 @@
 import PS.Proofs.Enum.BeeOrderRun
 import PS.Proofs.Enum.BeeDeleted
 import PS.Proofs.Enum.BeeNodupRun
+import PS.Proofs.Enum.BeeFullRun
+import PS.Proofs.Enum.BeeTermRun
 import PS.Props.C02_Bee
 namespace PS.C12Bee
 open PS PS.G PS.Bee PS.C02Bee
@@ -64,6 +66,42 @@ theorem C12_Bee_filter_nodup_partial (E : Env S) (hd : dictOK E = true) (hf : in
     out.Nodup ∧ ∀ p ∈ out, E.filter p = true ∧ gen E.G p E.G.start = true :=
   ⟨(runActs_nodup E fuel acts g0 g [] out hacts h (gn_new E (dictOK_of_check E hd) hf g0 h0) ⟨by simp, by simp⟩).2.1,
    C12_Bee_accepted E fuel acts g0 g out h0 h⟩
+
+/-- **WITH A FILTER: EVERY PROGRAM ALL OF WHOSE SUB-PROGRAMS ARE ACCEPTED IS YIELDED, EXACTLY ONCE, AND NOTHING REJECTED**
+    (repaired loop `Env.fixF11`, no merge declaration): when the generator has stopped, its output is duplicate-free, contains
+    only accepted members, and contains every member all of whose sub-programs the filter accepts (of cost at most `maxCost`);
+    for a filter closed under sub-programs this is exactly the accepted part of the language.  Decidable hypotheses as in
+    `C02_Bee_complete_partial`.  (That the generator stops with a rejecting filter is what the repair of C12-F11 achieves; it is
+    observed on every case, NOT proved.) -/
+theorem C12_Bee_filter_complete_partial (E : Env S) (h1 : nonnegW E = true) (h2 : posArgCosts E = true)
+    (h3 : hasCosts E = true) (h4 : dictOK E = true) (h5 : initFrontOK E = true) (h6 : initCoverOK E = true)
+    (hfix : E.fixF11 = true) (fuel : Nat) (acts : List Act) (hacts : acts.all Act.isTake = true) (g0 g : Gen S)
+    (out : List Prog) (h0 : Gen.new E = some g0) (h : runActs E fuel acts g0 [] = some (g, out))
+    (hstop : g.phase.isDone = true) :
+    out.Nodup ∧ (∀ p ∈ out, E.filter p = true ∧ gen E.G p E.G.start = true) ∧
+    ∀ p, gen E.G p E.G.start = true → Strict E p → (∀ m, E.maxCost = some m → pcost E p E.G.start ≤ m) → p ∈ out :=
+  ⟨(C12_Bee_filter_nodup_partial E h4 h5 fuel acts hacts g0 g out h0 h).1, C12_Bee_accepted E fuel acts g0 g out h0 h,
+   C02_Bee_complete_partial E h1 h2 h3 h4 h5 h6 hfix fuel acts hacts g0 g out h0 h hstop⟩
+
+/-- **WITH A FILTER THE REPAIRED GENERATOR STOPS, AND THEN HAS YIELDED EXACTLY WHAT IT SHOULD** (what the repair of C12-F11
+    achieves; the code as it was never stops with a rejecting filter: `finding_C12_F11`): for ANY filter there are a fuel and a
+    number of `next` calls after which the generator has raised StopIteration; its output is duplicate-free, contains only
+    accepted members, and contains every member (of cost at most the bound `m`) all of whose sub-programs are accepted -/
+theorem C12_Bee_filter_full (E : Env S) (h1 : nonnegW E = true) (h2 : posArgCosts E = true) (h3 : hasCosts E = true)
+    (h4 : dictOK E = true) (h5 : initFrontOK E = true) (h6 : initCoverOK E = true) (h7 : closedOK E = true)
+    (hfix : E.fixF11 = true) (m : Int) (hmax : E.maxCost = some m) (g0 : Gen S) (h0 : Gen.new E = some g0) :
+    ∃ fuel k g out, take E fuel k g0 [] = some (g, out, true) ∧ out.Nodup ∧
+      (∀ p ∈ out, E.filter p = true ∧ gen E.G p E.G.start = true) ∧
+      ∀ p, gen E.G p E.G.start = true → Strict E p → pcost E p E.G.start ≤ m → p ∈ out := by
+  have H := hyp_of_checks E h1 h2 h3 h4 h5 h6
+  obtain ⟨fuel, k, g, out, ht⟩ := take_terminates E H (closed_of_check E h7) hfix m hmax _ g0 rfl (tinv_new E H g0 h0) []
+  obtain ⟨ha0, hnob⟩ := all_new E H g0 h0
+  obtain ⟨_, _, hdone⟩ := take_all E H hfix fuel k g0 g [] out true ht ha0
+    ⟨⟨by simp, by simp⟩, fun ci p hin => absurd hin (hnob _ ci p), fun l1 q l2 he => by simp at he⟩
+  have hrun : runActs E fuel [.take k] g0 [] = some (g, out) := by simp [runActs, ht]
+  obtain ⟨a, b, c⟩ := C12_Bee_filter_complete_partial E h1 h2 h3 h4 h5 h6 hfix fuel [.take k] (by simp [Act.isTake]) g0 g out h0
+    hrun (hdone rfl)
+  exact ⟨fuel, k, g, out, ht, a, b, fun p hg hs hm => c p hg hs (fun m' hm' => by rw [hmax] at hm'; cases hm'; exact hm)⟩
 
 /-- **A MERGED PROGRAM IS NEVER YIELDED AGAIN**, every history: after `merge_program(_, other)` — whatever the state
     `g` reached before (any earlier history), whatever the later interleaving of `next` calls and further merges —
